@@ -1,6 +1,7 @@
 package metric
 
 import (
+	"encoding/binary"
 	"slices"
 	"strings"
 	"sync"
@@ -193,7 +194,11 @@ func computeStringsHash(s []string) uint64 {
 		hash = xxhash.Sum64String(s[0])
 	} else {
 		digest := xxhash.New()
+		var size [8]byte
 		for i := range s {
+			// length-prefixed: ("ab", "c") and ("a", "bc") are different tuples
+			binary.LittleEndian.PutUint64(size[:], uint64(len(s[i])))
+			_, _ = digest.Write(size[:])
 			_, _ = digest.WriteString(s[i])
 		}
 		hash = digest.Sum64()
